@@ -7,6 +7,7 @@ import (
 	"strings"
 
 	"verif/engine/apib"
+	"verif/engine/enum"
 )
 
 // variant of one category: the names handed to the Register* calls.
@@ -241,4 +242,89 @@ func regSets(s apib.Spec, level int) []Reg {
 		}
 	}
 	return out
+}
+
+// ---- order of registration ----
+
+// levelOrder: the registration sets of a description are the orderRegs (below) instead of the regSets.
+const levelOrder = -1
+
+// orderRegs: the EXACT registration set of the description made in every order and spelling the
+// property calls irrelevant: every permutation of the operation registrations x every vector of
+// method spellings over {UPPER, lower, Mixed}; every permutation of the consumers (producers) x
+// every vector of media-type spellings over {as written, UPPER}; every permutation of the
+// authenticators. One category varies at a time, the others are registered as written.
+// All of them are the same registrations, so the reference demands a passing Validate() and
+// the serving clause applies to each.
+func orderRegs(s apib.Spec) []Reg {
+	exact := regSets(s, 0)[0]
+	var out []Reg
+	seen := map[string]bool{}
+	emit := func(r Reg) {
+		b, _ := json.Marshal(r)
+		if !seen[string(b)] {
+			seen[string(b)] = true
+			out = append(out, r)
+		}
+	}
+	emit(exact)
+	methodSpell := []func(string) string{strings.ToUpper, strings.ToLower, func(m string) string { return strings.ToUpper(m[:1]) + strings.ToLower(m[1:]) }}
+	mediaSpell := []func(string) string{func(m string) string { return m }, strings.ToUpper}
+	sizes := func(n, k int) []int {
+		z := make([]int, n)
+		for i := range z {
+			z[i] = k
+		}
+		return z
+	}
+	for _, perm := range enum.Perms(len(exact.Ops)) {
+		enum.Product(sizes(len(exact.Ops), len(methodSpell)), func(idx []int) {
+			r := exact
+			r.Ops = nil
+			for i, pi := range perm {
+				o := exact.Ops[pi]
+				r.Ops = append(r.Ops, OpKey{Method: methodSpell[idx[i]](o.Method), Path: o.Path})
+			}
+			emit(r)
+		})
+	}
+	media := func(items []string, set func(r *Reg, v []string)) {
+		for _, perm := range enum.Perms(len(items)) {
+			enum.Product(sizes(len(items), len(mediaSpell)), func(idx []int) {
+				var v []string
+				for i, pi := range perm {
+					v = append(v, mediaSpell[idx[i]](items[pi]))
+				}
+				r := exact
+				set(&r, v)
+				emit(r)
+			})
+		}
+	}
+	media(exact.Consumers, func(r *Reg, v []string) { r.Consumers = v })
+	media(exact.Producers, func(r *Reg, v []string) { r.Producers = v })
+	for _, perm := range enum.Perms(len(exact.Auths)) {
+		r := exact
+		r.Auths = nil
+		for _, pi := range perm {
+			r.Auths = append(r.Auths, exact.Auths[pi])
+		}
+		emit(r)
+	}
+	return out
+}
+
+// orderDescriptions: lower-case (servable) descriptions with several operations of the SAME method,
+// two media types in both directions and two used security definitions.
+func orderDescriptions() []apib.Spec {
+	JT := []string{jsonMime, "text/plain"}
+	getC := shape{"GET", "/c", 200}
+	both := secList{alt("k1", "K2")}
+	return []apib.Spec{
+		{BasePath: "/", Produces: []string{jsonMime}, Ops: []apib.Op{mkOp(shapes[4], nil, nil, nil), mkOp(shapes[1], nil, nil, nil), mkOp(getC, nil, nil, nil)}},
+		{BasePath: "/", Consumes: JT, Produces: JT, SecurityDefs: secDefs([]string{"k1", "K2"}), Security: both,
+			Ops: []apib.Op{mkOp(shapes[0], nil, nil, nil), mkOp(shapes[4], nil, nil, nil), mkOp(shapes[1], nil, nil, nil)}},
+		{BasePath: "/", Consumes: JT, Produces: JT,
+			Ops: []apib.Op{mkOp(shapes[0], nil, nil, nil), mkOp(shape{"POST", "/c", 200}, nil, nil, nil), mkOp(shapes[2], nil, nil, nil)}},
+	}
 }
